@@ -463,12 +463,20 @@ impl Database {
         let file_manager = file_manager_guard.as_mut().unwrap();
         let storage_arc = file_manager.table_data_mut(schema_name, table_name)?;
 
-        let (root_page, starting_row_id) = {
+        let root_page = {
             let storage = storage_arc.write();
             let page = storage.page(0)?;
             let header = TableFileHeader::from_bytes(page)?;
-            (header.root_page(), header.row_count())
+            header.root_page()
         };
+        // Row keys come from the database-wide counter (the loader pre-increments). Deriving
+        // them from the table's row count collided with existing keys after deletes and left
+        // the counter behind, so the next INSERT failed with 'key already exists'.
+        let starting_row_id = self
+            .shared
+            .next_row_id
+            .fetch_add(rows.len() as u64, Ordering::Relaxed)
+            .saturating_sub(1);
 
         let mut storage = storage_arc.write();
         let mut loader =
